@@ -147,6 +147,19 @@ CLAIMS = {
             "custom MIR rules: path enumeration with per-path counting and provenance, guard edges, error-discipline "
             "(ignored Result) check, sibling-impl agreement",
             "3/C14"),
+    "C11": ("Decides on built MIR of emit_file: the active file is kept iff file_size_bytes + remaining_bytes <= "
+            "max_file_size_bytes AND its period == the period of the current clock reading (String equality, truth table "
+            "over both atoms; an ordering comparison is rejected); ActiveFileSet::apply_retention is preceded by "
+            "ActiveFileSet::read on every *feasible* path that creates a file (constant-flag path sensitivity), with bound "
+            "max_files.saturating_sub(1), before try_open_create (fixed defect); Filesystem::remove_file is called only in "
+            "apply_retention with dir joined with a name popped from its own listing, no unwrap on the pop (fixed defect); "
+            "sort order of the listing, the end current_file_name() reads and the end retention removes are consistent; "
+            "file_name() formats prefix, period, id, ext in that order and read_file_name_ts() reads part 1 of split('.'); "
+            "new files are named from the period of this batch's clock reading; only entries matching prefix and extension "
+            "enter the listing. Not claimed: prefix-extending sibling sets, calendar arithmetic, zero-padded name ordering.",
+            "custom MIR rules: truth table of a closure predicate, feasible-path must-pass-through, who-may-call, "
+            "provenance of deleted paths, sibling agreement (sort/first/pop), format-argument order",
+            "3/C11"),
 }
 
 REASONS_NOT_YET = "check not built yet (build in progress; DESIGN.md section 3 lists the planned rules)"
